@@ -511,8 +511,102 @@ def insert_scenarios_obligations(chk, prop):
                         refute(ob('first-attempts-queue-behind-unless-a-serial-batch-arrives'),
                                z3.Implies(z3.Not(retried), z3.BoolVal(before_old) == serial_batch), {'entry': x.tag})
         ex.explore(run, on_end)
+    bad = [o for o in obs.values() if o.verdict == 'violated']
+    if bad:
+        confirm_insert_scenarios(chk, bad, prop)
     w = chk.add(Obligation('%s.insert_scenarios.witness' % prop, 'exploration'))
     w.kind = 'witness'
     w.verdict = 'witness-ok' if npaths[0] >= 8 and 'deadline-only-for-retried-entries-starting-now' in obs else 'witness-missing'
     w.detail = '%d paths; exercised %s' % (npaths[0], sorted(obs))
     return list(obs.values())
+
+
+def confirm_insert_scenarios(chk, bad, prop):
+    """In-crate differential replay of the real Features::insert_scenarios on concrete batches."""
+    import os
+    from checks import incrate
+    code = r'''
+    use std::time::{Duration, Instant};
+    fn sc(tag: &str) -> (Source<gherkin::Feature>, Source<gherkin::Scenario>) {
+        let f = gherkin::Feature::parse(format!("Feature: f\n  Scenario: {tag}\n    Given x\n"), gherkin::GherkinEnv::default()).unwrap();
+        let s = Source::new(f.scenarios[0].clone());
+        (Source::new(f), s)
+    }
+    #[test]
+    fn verif_replay() {
+        // kinds of inserted entries: 0 = no retry options, 1 = first attempt with delay configured, 2 = retried (current 1) with delay, 3 = retried without delay
+        let kinds = [0u8, 1, 2, 3];
+        let mut batches: Vec<Vec<u8>> = vec![vec![]];
+        for a in kinds { batches.push(vec![a]); for b in kinds { batches.push(vec![a, b]); } }
+        for ns in &batches { if ns.len() > 1 { continue; }
+        for nc in &batches {
+            if ns.is_empty() && nc.is_empty() { continue; }
+            for (os, oc) in [(0usize, 0usize), (0, 1), (1, 0), (1, 2)] {
+                let feats = Features::default();
+                futures::executor::block_on(async {
+                    let mut g = feats.scenarios.lock().await;
+                    if os > 0 { g.insert(ScenarioType::Serial, (0..os).map(|i| { let (f, s) = sc(&format!("os{i}")); (ScenarioId::new(), f, None, s, None) }).collect()); }
+                    if oc > 0 { g.insert(ScenarioType::Concurrent, (0..oc).map(|i| { let (f, s) = sc(&format!("oc{i}")); (ScenarioId::new(), f, None, s, None) }).collect()); }
+                });
+                let mk = |pfx: &str, ks: &Vec<u8>| ks.iter().enumerate().map(|(i, k)| {
+                    let (f, s) = sc(&format!("{pfx}{i}"));
+                    let ret = match k {
+                        0 => None,
+                        1 => Some(RetryOptions { retries: Retries { current: 0, left: 2 }, after: Some(Duration::from_secs(5)) }),
+                        2 => Some(RetryOptions { retries: Retries { current: 1, left: 1 }, after: Some(Duration::from_secs(5)) }),
+                        _ => Some(RetryOptions { retries: Retries { current: 1, left: 1 }, after: None }),
+                    };
+                    (ScenarioId::new(), f, None, s, ret)
+                }).collect::<Vec<_>>();
+                let mut ins = HashMap::new();
+                if !ns.is_empty() { ins.insert(ScenarioType::Serial, mk("ns", ns)); }
+                if !nc.is_empty() { ins.insert(ScenarioType::Concurrent, mk("nc", nc)); }
+                futures::executor::block_on(feats.insert_scenarios(ins));
+                let dump = futures::executor::block_on(async {
+                    let g = feats.scenarios.lock().await;
+                    let f = |t| g.get(&t).map_or(String::new(), |v| v.iter().map(|e| format!("{}:{}", e.3.name, match &e.4 { None => "n", Some(r) => match r.after { None => "r", Some((_, None)) => "d", Some((_, Some(_))) => "D" } })).collect::<Vec<_>>().join(","));
+                    format!("S={}_ C={}_", f(ScenarioType::Serial), f(ScenarioType::Concurrent))
+                });
+                println!("RESULT ns={}_ nc={}_ os={} oc={} {}", ns.iter().map(|k| k.to_string()).collect::<String>(), nc.iter().map(|k| k.to_string()).collect::<String>(), os, oc, dump);
+            }
+        }}
+    }
+'''
+    res, out = incrate.run('src/runner/basic.rs', code)
+    chk.replays += 1
+    devs = []
+    mark = {0: 'n', 1: 'd', 2: 'D', 3: 'r'}
+    for r in res:
+        ns = [int(c) for c in str(r['ns']).rstrip('_')]
+        nc = [int(c) for c in str(r['nc']).rstrip('_')]
+        serial_fresh = any(k in (0, 1) for k in ns)
+        want = {}
+        for pfx, ks, old in (('S', ns, ['os%d:n' % i for i in range(r['os'])]), ('C', nc, ['oc%d:n' % i for i in range(r['oc'])])):
+            nm = 'ns' if pfx == 'S' else 'nc'
+            retried = ['%s%d:%s' % (nm, i, mark[k]) for i, k in enumerate(ks) if k in (2, 3)]
+            fresh = ['%s%d:%s' % (nm, i, mark[k]) for i, k in enumerate(ks) if k in (0, 1)]
+            q = list(reversed(retried)) + old
+            q = (fresh + q) if serial_fresh else (q + fresh)
+            want[pfx] = q
+        got = {p: [x for x in str(r[p]).rstrip('_').split(',') if x] for p in ('S', 'C')}
+        if got != want:
+            devs.append((r, want))
+    d = os.path.join(common.EVID, 'replay')
+    os.makedirs(d, exist_ok=True)
+    path = os.path.join(d, '%s-insert-scenarios.txt' % prop)
+    for o in bad:
+        if not res:
+            o.verdict = 'inconclusive'
+            o.detail += ' | in-crate replay did not run: %s' % out[-300:]
+        elif devs:
+            with open(path, 'w') as f:
+                f.write('inserted entry kinds: 0 = no retry options, 1 = first attempt with a delay configured, 2 = retried with delay, 3 = retried without delay; marks: n none, r retry options, d delay without start instant, D delay with start instant\n')
+                for r, w in devs[:40]:
+                    f.write('real %s ; specification %s\n' % (r, w))
+            o.replay = path
+            if path not in chk.replay_files:
+                chk.replay_files.append(path)
+            o.detail += ' | reproduced natively (in-crate differential replay of the real insert_scenarios, %d batches, %d deviate), e.g. real %s vs specification %s' % (len(res), len(devs), devs[0][0], devs[0][1])
+        else:
+            o.verdict = 'inconclusive'
+            o.detail += ' | in-crate replay of %d batches follows the specification - counterexample not reproduced' % len(res)
